@@ -113,6 +113,15 @@ DOCS_Q += [
 
 
 DOCS_Q += [
+    # a case-preserving key type: a key and a NAMED section whose names may differ in letter case only
+    [S('schema', keytype='identifier'), S('sectiontype', name='ta'), E('sectiontype'),
+     S('key', name=H(2, 'k1'), attribute='aa'), E('key'),
+     S('section', type='ta', name=H(2, 'n1'), attribute='ab'), E('section'),
+     S('multisection', type='ta', name='+', attribute='ac'), E('multisection'), E('schema')],
+    [S('schema'), S('sectiontype', name='ta'), E('sectiontype'),
+     S('sectiontype', name='tb', keytype='identifier'),
+     S('section', type='ta', name=H(2, 'n1'), attribute='ab'), E('section'),
+     S('key', name=H(2, 'k1'), attribute='aa'), E('key'), E('sectiontype'), E('schema')],
     [S('schema', keytype='identifier'), S('sectiontype', name='ta', keytype='basic-key'),
      S('key', name='Kx'), E('key'), E('sectiontype'),
      S('key', name='Ka'), E('key'), S('key', name=H(2, 'k1')), E('key'),
